@@ -58,17 +58,18 @@ FALSY_FRESH = ("fobj", "flist", "fdict", "fset", "len0")
 FALSY_SINGLE = ("zero", "none", "false", "fstr", "ftuple")
 
 
-def _find_lock(futs):
-    """Locate the combinator's lock through the done-callback of an input (replay steering only)."""
-    for f in futs:
-        for cb in list(getattr(f, "_done_callbacks", ())) + list(getattr(f, "_me_done_callbacks", ())):
-            d = getattr(cb, "_WeakCallback__delegate", None)
-            d = getattr(d, "func", d)
-            owner = getattr(d, "__self__", None)
-            lk = getattr(owner, "lock", None)
-            if lk is not None:
-                return lk
-    return None
+def _is_combinator_lock(obj):
+    """Replay steering only: is this controlled Lock the `lock` of a BoolOperation / Zipper?  (Found through
+    the object that refers to it; if the library stops looking like this the replay degrades, never the verdict.)"""
+    import gc
+    if type(obj) is not E.Lock:
+        return False
+    for d in gc.get_referrers(obj):
+        if not isinstance(d, dict):       # (3.12 keeps instance attributes inline: the referrer is the instance)
+            d = getattr(d, "__dict__", None)
+        if isinstance(d, dict) and d.get("lock") is obj and "out" in d and "done" in d and "fs" in d:
+            return True
+    return False
 
 
 def build(p):
@@ -173,6 +174,8 @@ def build(p):
             E.emit("FnRet", k=x, f=pos[x - 1])
             return args[x - 1]
 
+        if p.get("visible"):
+            E.vsleep(0)       # replay: the call is a step of its own (spec: MAIN's first action)
         E.emit("CombCall")
         E.upoint()
         try:
@@ -193,10 +196,6 @@ def build(p):
             return
         S.track(0, out)
         E.emit("CombRet", c=1 if (args and out is args[0]) else 0)
-        if p.get("visible"):
-            lk = _find_lock(list(given.values()))
-            if lk is not None:
-                S.role(lk, "lock")
         if not p.get("early"):
             for i in threaded:
                 E.spawn("comp%d" % i, completer, i)
@@ -230,7 +229,13 @@ def build(p):
         E.emit("End")
 
     def visible(obj):
-        return E.SCHED.roles.get(id(obj)) == "lock"
+        roles = E.SCHED.roles
+        r = roles.get(id(obj))
+        if r is None:
+            r = "lock" if _is_combinator_lock(obj) else "other"
+            roles[id(obj)] = r
+            E.SCHED.keepalive.append(obj)
+        return r == "lock"
 
     opts = {"horizon": horizon + 100000, "max_steps": p.get("max_steps", 60000)}
     if p.get("visible"):
